@@ -254,6 +254,39 @@ Proof.
   split; assumption.
 Qed.
 
+(* ---------- ExtendTransmitMessages / ExtendReceiveMessages / SetHandleOnlyKnownMessages / SetProductInformation ---------- *)
+Lemma set_tx_list_sh c r i l : 0 <= c -> time_ok c r ->
+  set_tx_list (shift_rnode c r) i l = shift_rnode c (set_tx_list r i l) /\ time_ok c (set_tx_list r i l).
+Proof.
+  intros Hc H. unfold set_tx_list. cbv zeta. rewrite valid_dev_sh.
+  destruct (valid_dev r i) eqn:Ev; cbn [negb]; [|split; [reflexivity|exact H]].
+  pose proof (valid_dev_vi r i Ev) as V. pose proof (tok_get_dev c r i H V) as (T1 & T2 & T3).
+  rewrite shr_rn, get_dev_sh by exact V. split.
+  - rewrite <- with_rn_sh. f_equal. rewrite <- upd_dev_sh; repeat (f_equal; try reflexivity).
+  - apply tok_with_rn; [exact H| |cbn [upd_dev n_devs]; apply zset_length].
+    apply nok_upd_dev; [apply tok_nok; exact H|]. unfold dev_ok. cbn [d_claim_timer d_next_dt_time d_src]. repeat split; assumption || lia.
+Qed.
+Lemma set_rx_list_sh c r i l : 0 <= c -> time_ok c r ->
+  set_rx_list (shift_rnode c r) i l = shift_rnode c (set_rx_list r i l) /\ time_ok c (set_rx_list r i l).
+Proof.
+  intros Hc H. unfold set_rx_list. cbv zeta. rewrite valid_dev_sh.
+  destruct (valid_dev r i) eqn:Ev; cbn [negb]; [|split; [reflexivity|exact H]].
+  pose proof (valid_dev_vi r i Ev) as V. pose proof (tok_get_devx c r i H V) as (X1 & X2 & X3 & X4 & X5 & X6).
+  rewrite get_devx_sh by (apply (tok_vx c); assumption). split.
+  - rewrite <- with_devx_sh. reflexivity.
+  - apply tok_with_devx; [exact H|]. unfold devx_ok. cbn [x_pend_claim x_pend_prod x_pend_conf x_hb]. repeat split; assumption || lia.
+Qed.
+Lemma with_cfg_sh c r cf : time_ok c r ->
+  with_cfg (shift_rnode c r) cf = shift_rnode c (with_cfg r cf) /\ time_ok c (with_cfg r cf).
+Proof.
+  intros H. split; [reflexivity|].
+  destruct H as [A B C D [E1 F] G I J L]. constructor; cbn [with_cfg rn rx_dev r_open_sched r_sync r_slots r_q]; try assumption.
+  split; assumption.
+Qed.
+Lemma set_only_known_sh c r b : time_ok c r ->
+  set_only_known (shift_rnode c r) b = shift_rnode c (set_only_known r b) /\ time_ok c (set_only_known r b).
+Proof. intros H. unfold set_only_known. cbv zeta. apply (with_cfg_sh c r _ H). Qed.
+
 (* ---------- SetDeviceInformation ---------- *)
 Lemma set_device_information_sh c r i uniq func cls manuf ind : 0 <= c -> time_ok c r ->
   set_device_information (shift_rnode c r) i uniq func cls manuf ind = shift_rnode c (set_device_information r i uniq func cls manuf ind) /\
@@ -275,7 +308,7 @@ Lemma api_step_sh c r a : 0 <= c -> time_ok c r -> api_ok c r a ->
 Proof.
   intros Hc H Ha.
   assert (Nop: (shift_rnode c r, @nil event) = lift_res c (r, []) /\ time_ok c (fst (r, @nil event))) by (split; [reflexivity|exact H]).
-  destruct a as [dst idev delay|idev|idev|dst idev tp|dst idev tp|force|idev|idev lo up si|idev uniq func cls manuf ind| |mode src|which l];
+  destruct a as [dst idev delay|idev|idev|dst idev tp|dst idev tp|force|idev|idev lo up si|idev uniq func cls manuf ind| |mode src|which l|idev l|idev l|b|serial code model sw ver load version cert];
     cbn [api_step api_ok] in *; cbv zeta.
   - (* SendIsoAddressClaim *)
     rewrite valid_dev_sh. set (i := bcast_dev dst idev) in *.
@@ -337,6 +370,19 @@ Proof.
     unfold lift_res. cbn [fst snd]. split; [reflexivity|exact K].
   - (* PGN lists *)
     destruct (set_pgn_list_sh c r which l H) as [E K]. rewrite E.
+    unfold lift_res. cbn [fst snd]. split; [reflexivity|exact K].
+  - (* ExtendTransmitMessages *)
+    destruct (set_tx_list_sh c r idev l Hc H) as [E K]. rewrite E.
+    unfold lift_res. cbn [fst snd]. split; [reflexivity|exact K].
+  - (* ExtendReceiveMessages *)
+    destruct (set_rx_list_sh c r idev l Hc H) as [E K]. rewrite E.
+    unfold lift_res. cbn [fst snd]. split; [reflexivity|exact K].
+  - (* SetHandleOnlyKnownMessages *)
+    destruct (set_only_known_sh c r b H) as [E K]. rewrite E.
+    unfold lift_res. cbn [fst snd]. split; [reflexivity|exact K].
+  - (* SetProductInformation: the configuration is not shifted *)
+    change (r_cfg (shift_rnode c r)) with (r_cfg r).
+    destruct (with_cfg_sh c r (ProdInfoDefs.set_product_information (r_cfg r) serial code model sw ver load version cert) H) as [E K]. rewrite E.
     unfold lift_res. cbn [fst snd]. split; [reflexivity|exact K].
 Qed.
 
